@@ -10,6 +10,7 @@ import (
 	"github.com/orda-io/orda/client/pkg/verifhook"
 	"sort"
 	"sync"
+	"sync/atomic"
 	"time"
 
 	"github.com/orda-io/orda/client/pkg/errors"
@@ -54,20 +55,53 @@ func (h *hlog) take() []interface{} {
 
 type sworld struct {
 	world
-	kit     *srvkit.Kit
-	clients []*sclient
-	owner   []int // rep index -> client index
-	hl      []*hlog
-	held    map[int][]*model.PushPullPack
-	heldRep map[int][]int
-	pubSeen int
-	out     func(cmd, obs J)
-	lite    bool            // store dumps without snapshots and user documents (their timing is schedule-dependent)
-	bgHeld  []chan struct{} // post-push goroutines parked before their snapshot update (fault "holdbg"), oldest first
+	kit       *srvkit.Kit
+	clients   []*sclient
+	owner     []int // rep index -> client index
+	hl        []*hlog
+	held      map[int][]*model.PushPullPack
+	heldRep   map[int][]int
+	pubSeen   int
+	out       func(cmd, obs J)
+	lite      bool            // store dumps without snapshots and user documents (their timing is schedule-dependent)
+	bgHeld    []chan struct{} // post-push goroutines parked before their snapshot update (fault "holdbg"), oldest first
+	bgTimeout bool
 }
 
 var theKit *srvkit.Kit
 var bgMu sync.Mutex
+
+// The post-push goroutines of the server are counted through the schedule points of /repo's verifhook
+// package (build tag verif): `spawn` fires in the request handler before the goroutine starts (hence before the
+// response is returned), `done` when it ends.  waitBackground is exact, not a guess from quiet time.
+var bgSpawned, bgDone, bgParked int64
+var bgParkFn atomic.Value // func() chan struct{}: the channel the next goroutine reaching `beforeSnapshot` parks on (or nil)
+
+func installBgHook() {
+	bgParkFn.Store((func() chan struct{})(nil))
+	verifhook.SetHook(func(p string) {
+		switch p {
+		case "server.postpush.spawn":
+			atomic.AddInt64(&bgSpawned, 1)
+		case "server.postpush.done":
+			atomic.AddInt64(&bgDone, 1)
+		case "server.postpush.beforeSnapshot":
+			if f, ok := bgParkFn.Load().(func() chan struct{}); ok && f != nil {
+				if ch := f(); ch != nil {
+					atomic.AddInt64(&bgParked, 1)
+					<-ch
+					atomic.AddInt64(&bgParked, -1)
+				}
+			}
+		}
+	})
+}
+
+// bgRunning = post-push goroutines that are neither finished, nor parked by the harness, nor blocked at the
+// database gate of the harness
+func (w *sworld) bgRunning() int64 {
+	return atomic.LoadInt64(&bgSpawned) - atomic.LoadInt64(&bgDone) - atomic.LoadInt64(&bgParked) - int64(len(w.kit.Mongo.Held()))
+}
 
 func pushedSomething(packs []*model.PushPullPack) bool {
 	for _, p := range packs {
@@ -85,6 +119,7 @@ func getKit() *srvkit.Kit {
 			panic(err)
 		}
 		theKit = k
+		installBgHook()
 	}
 	return theKit
 }
@@ -262,20 +297,49 @@ func (w *sworld) waitHandlers(i int) []interface{} {
 
 func canonS(v interface{}) string { b, _ := json.Marshal(v); return string(b) }
 
-// waitBackground waits until the post-push goroutine (notification + snapshot update) is done:
-// the command log of memmongo has been quiet for a few milliseconds.
+// waitBackground waits until every post-push goroutine (notification + snapshot update) has finished, is parked
+// by the harness (fault holdbg) or is blocked at the harness's database gate (faults holdsnap / nosnap): exact
+// counters fed by the schedule points of verifhook; two consecutive readings must agree.  The deadline only
+// guards against a goroutine that never ends (reported in the observation of the step as `bgTimeout`).
 func (w *sworld) waitBackground() {
-	last := -1
-	quiet := 0
-	for t := 0; t < 400 && quiet < 4; t++ {
-		time.Sleep(time.Millisecond)
-		n := len(w.kit.Mongo.Log())
-		if n == last {
-			quiet++
+	deadline := time.Now().Add(20 * time.Second)
+	ok := 0
+	lastLog, quietSince := -1, time.Now()
+	for ok < 2 {
+		if w.bgRunning() <= 0 {
+			ok++
 		} else {
-			quiet = 0
-			last = n
+			ok = 0
+			// While the harness keeps an updater parked or blocked at its database gate, a later updater of the same
+			// datatype waits for the snapshot lock (up to the lock's lease time) and issues no database command: it
+			// is neither finished nor visibly blocked.  Only in that situation (profile snap11, whose store dumps
+			// leave out the schedule-dependent snapshots) quiet time decides.
+			if atomic.LoadInt64(&bgParked) > 0 || len(w.kit.Mongo.Held()) > 0 {
+				if n := len(w.kit.Mongo.Log()); n != lastLog {
+					lastLog, quietSince = n, time.Now()
+				} else if time.Since(quietSince) > 30*time.Millisecond {
+					return
+				}
+			}
 		}
+		if ok < 2 {
+			if time.Now().After(deadline) {
+				w.bgTimeout = true
+				return
+			}
+			time.Sleep(200 * time.Microsecond)
+		}
+	}
+}
+
+// waitGateOrDone: if the request spawned a post-push goroutine, wait until it is blocked at the database gate or done
+func (w *sworld) waitGateOrDone(spawnedBefore int64) {
+	if atomic.LoadInt64(&bgSpawned) <= spawnedBefore {
+		return
+	}
+	dl := time.Now().Add(20 * time.Second)
+	for time.Now().Before(dl) && w.bgRunning() > 0 {
+		time.Sleep(200 * time.Microsecond)
 	}
 }
 
@@ -405,14 +469,13 @@ func (w *sworld) stepSync(c int, rs []int, fault string, hold int, mut *mutation
 		if fault == "nosnap" || fault == "holdsnap" {
 			w.kit.Mongo.SetGate(func(c memmongo.CmdRecord) bool { return c.Coll == "-_-Snapshots" && c.Name == "find" })
 		}
+		spawnedBefore := atomic.LoadInt64(&bgSpawned)
+		parkedBefore := atomic.LoadInt64(&bgParked)
 		if fault == "holdbg" {
 			// the post-push goroutine of this request is parked BEFORE it tries the snapshot lock: later
 			// pushes update the snapshot first, this updater runs late with its old end of log
 			var once sync.Once
-			verifhook.SetHook(func(p string) {
-				if p != "server.postpush.beforeSnapshot" {
-					return
-				}
+			bgParkFn.Store(func() chan struct{} {
 				var ch chan struct{}
 				once.Do(func() {
 					ch = make(chan struct{})
@@ -420,31 +483,25 @@ func (w *sworld) stepSync(c int, rs []int, fault string, hold int, mut *mutation
 					w.bgHeld = append(w.bgHeld, ch)
 					bgMu.Unlock()
 				})
-				if ch != nil {
-					<-ch
-				}
+				return ch
 			})
 		}
 		resp, err := send()
 		if fault == "holdbg" {
-			for t := 0; t < 300; t++ {
-				bgMu.Lock()
-				n := len(w.bgHeld)
-				bgMu.Unlock()
-				if n > 0 || err != nil {
-					break
-				}
-				time.Sleep(time.Millisecond)
-				if t > 20 && (resp == nil || !pushedSomething(packs)) {
-					break
+			// exact: the handler fired `spawn` before it returned; if it did, wait until that goroutine is parked
+			if atomic.LoadInt64(&bgSpawned) > spawnedBefore {
+				dl := time.Now().Add(20 * time.Second)
+				for time.Now().Before(dl) {
+					if atomic.LoadInt64(&bgParked) > parkedBefore || w.bgRunning() <= 0 {
+						break
+					}
+					time.Sleep(200 * time.Microsecond)
 				}
 			}
-			verifhook.SetHook(nil)
+			bgParkFn.Store((func() chan struct{})(nil))
 		}
 		if fault == "nosnap" {
-			for t := 0; t < 300 && len(w.kit.Mongo.Held()) == 0; t++ {
-				time.Sleep(time.Millisecond)
-			}
+			w.waitGateOrDone(spawnedBefore)
 			if h := w.kit.Mongo.Held(); len(h) > 0 {
 				w.kit.Mongo.FailFrom(h[0].Seq)
 			}
@@ -455,9 +512,7 @@ func (w *sworld) stepSync(c int, rs []int, fault string, hold int, mut *mutation
 		}
 		if fault == "holdsnap" {
 			// the background updater of this push stays blocked at its first command until `release`
-			for t := 0; t < 300 && len(w.kit.Mongo.Held()) == 0; t++ {
-				time.Sleep(time.Millisecond)
-			}
+			w.waitGateOrDone(spawnedBefore)
 			w.kit.Mongo.SetGate(nil)
 		}
 		time.Sleep(2 * time.Millisecond)
@@ -657,6 +712,9 @@ func (w *sworld) stepStore() (J, J, bool) {
 			st["userDocs"] = []interface{}{}
 		}
 		obs["store"] = st
+		if w.bgTimeout {
+			obs["bgTimeout"] = true // a post-push goroutine did not end within the deadline: never equal to the model
+		}
 	})
 	cmd := J{"k": "store"}
 	if w.lite {
